@@ -14,7 +14,7 @@ Theorem C05_chars_match_608 : forall c, 32 <= c <= 126 -> char_of (odd_parity c)
 Proof. exact chars_match_608. Qed.
 Print Assumptions C05_chars_match_608.
 Theorem C05_chars_table_domain : forall b s, In (b, s) scc_characters ->
-  (b = 128 /\ s = []) \/ (b = odd_parity 127 /\ s = []) \/ (exists c, 32 <= c <= 126 /\ b = odd_parity c /\ s = [basic_608 c]).
+  (b = 128 /\ s = []) \/ (b = odd_parity 127 /\ s = []) \/ (exists c, 32 <= c <= 127 /\ b = odd_parity c /\ s = [basic_608 c]).
 Proof. exact chars_table_domain. Qed.
 Print Assumptions C05_chars_table_domain.
 Theorem C05_special_match_608 : forall i, 0 <= i < 16 -> special_of (special_word i) = Some [nth (Z.to_nat i) special_608 0].
@@ -54,7 +54,7 @@ Print Assumptions C05_tab_offsets_1_2_3.
 Theorem C05_control_codes : w_rcl = ctrl_word 32 /\ w_bs = ctrl_word 33 /\ w_ru2 = ctrl_word 37 /\ w_ru3 = ctrl_word 38 /\
   w_ru4 = ctrl_word 39 /\ w_rdc = ctrl_word 41 /\ w_edm = ctrl_word 44 /\ w_cr = ctrl_word 45 /\ w_enm = ctrl_word 46 /\ w_eoc = ctrl_word 47
   /\ Forall (fun w => is_command w = true) [w_rcl; w_bs; w_ru2; w_ru3; w_ru4; w_rdc; w_edm; w_cr; w_enm; w_eoc]
-  /\ scc_cue_starting_commands = [w_ru2; w_ru3; w_ru4; w_rdc; w_rcl].
+  /\ (forall w, In w scc_cue_starting_commands <-> In w [w_ru2; w_ru3; w_ru4; w_rdc; w_rcl]).
 Proof. exact control_codes. Qed.
 Print Assumptions C05_control_codes.
 Theorem C05_midrow_classes : forall a, 0 <= a < 16 ->
@@ -102,6 +102,14 @@ Theorem C05_doubling_once : forall s w n1 n2,
   translate_word s1 w n2 = bump (set_dbl s1 LNone (if is_cue_start w then true else r_dstart s1)).
 Proof. exact doubling_once. Qed.
 Print Assumptions C05_doubling_once.
+(* ... and "doubled type" is every command, preamble address code, special and extended character, whatever the state
+   (after the repair: backspace and extended characters no longer need a doubled mode command before them) *)
+Theorem C05_doubling_unconditional : forall s w,
+  doubled_type s w = (is_command w || is_pac w
+                      || (match special_of w with Some _ => true | None => false end)
+                      || (match extended_of w with Some _ => true | None => false end)).
+Proof. exact doubling_unconditional. Qed.
+Print Assumptions C05_doubling_unconditional.
 (* PAC TO PAC TO: the second pair is skipped as a unit; PAC PAC TO TO: the offset is dropped (outside the domain) *)
 Theorem C05_pac_tab_unit_once : forall s p t n1 n2 n3 n4,
   r_err s = None -> is_pac p = true -> tab_of t <> None -> fst (handle_double s p) = false ->
@@ -264,8 +272,7 @@ Print Assumptions C05_popon_stage5b_refines_partial.
         anywhere in between, codes single or doubled, any timecodes whose instants are positive and such that every
         event comes after the latest End-Of-Caption: read returns captions that satisfy the property oracle ok_c05 for the
         whole program (characters, lines, grouping by consecutive rows, position of each caption, equal times inside a
-        load, order of loads), and the program is inside dom_c05. What remains open for the full theorem: special /
-        extended / backspace / italic preambles in multi-row and multi-load programs (stage 5 + 6 combined), mid-row codes. *)
+        load, order of loads), and the program is inside dom_c05. (Subsumed by stage 9.) *)
 Theorem C05_popon_stage6_refines_partial : forall d off segs evs spans,
   forallb pseg_ok segs = true -> res_map (pseg_event d off) segs = Ok evs -> positive evs -> after_show None evs ->
   expected_with join_threshold evs = Ok spans ->
@@ -291,13 +298,13 @@ Print Assumptions C05_popon_stage7_refines_partial.
 
 (* ---- STAGE 8 / 9 = popon_refines_608, THE FULL ITEM DOMAIN. Stage 8: one load of any number of rows with all five
         item kinds (basic, special, extended-with-stand-in, the 16 mid-row codes, backspace) and every preamble style;
-        stage 9: whole programs of such loads by the generic lifting. Domain lc_ok8 = load_wf (rows in row_ok, distinct
-        row numbers) + no_mid_after_full8: a row that fills its 32 cells is not directly followed by a row in which a
-        mid-row code arrives while the row shows no character yet (the reader appends the code's blank to the previous
-        text; after a full row that is not directly above, this trips the length check: C05_load_wf_not_enough is the
-        witness, found by the proof). Layout of the stream: one load per line, Erase-Displayed-Memory lines anywhere;
-        instants positive and every event after the latest End-Of-Caption. ------------------------------------------------ *)
-Theorem C05_popon_one_load_refines : forall d l off tc tc2 t1 t2, lc_ok8 l = true ->
+        stage 9: whole programs of such loads by the generic lifting. Domain: lc_ok8 = load_wf (rows in row_ok, distinct row
+        numbers), i.e. exactly dom_c05 per load. (Until the reader stripped trailing blanks in front of a repositioning
+        and through italics nodes, a row filling its 32 cells followed by a row in which a mid-row code arrives on the
+        still empty row tripped the length check: C05_former_counterexamples_now_read.) Layout of the stream: one load
+        per line starting ENM RCL, Erase-Displayed-Memory lines anywhere; instants positive, every event after the latest
+        End-Of-Caption. Other layouts: correspondence + oracle on the implementation. ------------------------------------ *)
+Theorem C05_popon_one_load_refines : forall d l off tc tc2 t1 t2, load_wf l = true ->
   get_time tc (Z.of_nat (length (emit_load d l)) - (if d then 2 else 1)) off = Ok t1 ->
   get_time tc2 0 off = Ok t2 -> (0 < t1)%Q -> (t1 < t2)%Q -> is_flash (mkPre t1 t2 [] None) = false ->
   exists caps, read off [(tc, emit_load d l); (tc2, emit_clear d)] = ROk caps /\
@@ -305,19 +312,37 @@ Theorem C05_popon_one_load_refines : forall d l off tc tc2 t1 t2, lc_ok8 l = tru
 Proof. exact popon_stage8. Qed.
 Print Assumptions C05_popon_one_load_refines.
 Theorem C05_popon_refines_608 : forall d off segs evs spans,
-  forallb pseg_ok8 segs = true -> res_map (pseg_event d off) segs = Ok evs -> positive evs -> after_show None evs ->
+  forallb (fun s => match s with PLoad _ l => load_wf l | PClear _ => true end) segs = true ->
+  res_map (pseg_event d off) segs = Ok evs -> positive evs -> after_show None evs ->
   expected_with join_threshold evs = Ok spans ->
   exists caps, read off (map (pseg_line d) segs) = ROk caps /\
                ok_c05 (mkProg d (ploads_of segs)) (Ok (map observe caps)) = true /\
                dom_c05 (mkProg d (ploads_of segs)) = true.
 Proof. exact popon_refines_608. Qed.
 Print Assumptions C05_popon_refines_608.
-Theorem C05_load_wf_not_enough :
-  load_wf cex_load = true /\ lc_ok8 cex_load = false /\
-  forallb (fun d => match read 0 [(lit "00:00:01;00", emit_load d cex_load); (lit "00:00:05;00", emit_clear d)] with
-                    | RLen _ => true | _ => false end) [false; true] = true.
-Proof. exact load_wf_not_enough. Qed.
-Print Assumptions C05_load_wf_not_enough.
+Theorem C05_former_counterexamples_now_read :
+  forallb (fun ld => load_wf ld &&
+     forallb (fun d => match read 0 [(lit "00:00:01;00", emit_load d ld); (lit "00:00:05;00", emit_clear d)] with
+                       | ROk (c :: _) => Nat.eqb (length (cap_text c)) 32 | _ => false end) [false; true]) [cex_load_ital; cex_load_ital2] = true.
+Proof. exact cex_loads_now_read. Qed.
+Print Assumptions C05_former_counterexamples_now_read.
+
+(* non-vacuity of C05_popon_refines_608: a whole program with mid-row codes, extended characters, a backspace, an italic
+   preamble, adjacent and scattered rows, two loads and a clear line, doubled codes: the hypotheses hold and the conclusion
+   is checked by running the model *)
+Example C05_refines_608_instance :
+  let l1 := [mkRow 3 0 0 14 [Ch 72; Mid 0; Ch 105; Ext 101 0 1]; mkRow 4 4 1 0 [Ch 97; Ch 98; Bs; Sp 3]] in
+  let l2 := [mkRow 15 0 0 0 [Ch 120; Mid 14; Ch 121]; mkRow 9 8 0 1 [Ch 122]] in
+  let segs := [PLoad (lit "00:00:01:00") l1; PClear (lit "00:00:03:00"); PLoad (lit "00:00:05:00") l2] in
+  forallb (fun s => match s with PLoad _ l => load_wf l | PClear _ => true end) segs = true /\
+  match res_map (pseg_event true 0) segs with
+  | Ok evs => match read 0 (map (pseg_line true) segs) with
+              | ROk caps => ok_c05 (mkProg true (ploads_of segs)) (Ok (map observe caps)) && Nat.eqb (length caps) 3
+              | _ => false
+              end
+  | Err _ => false
+  end = true.
+Proof. vm_compute. split; reflexivity. Qed.
 
 (* ---- non-vacuity / behaviour after fix #22: the second caption is addressed on its own ---------------------------- *)
 Example C05_example_two_loads :
